@@ -82,6 +82,22 @@ func loadEngine(repo string) (*Engine, error) {
 			e.spkgs[pkgs[i].PkgPath] = p
 		}
 	}
+	// package-level variables of function type (hooks such as lisp.Stepper) are installed by the
+	// embedder before evaluation starts: treated as unchanged by calls (assumption A-HOOK)
+	for _, p := range prog.AllPackages() {
+		if !strings.HasPrefix(p.Pkg.Path(), modulePath) {
+			continue
+		}
+		for _, m := range p.Members {
+			if g, ok := m.(*ssa.Global); ok {
+				if pt, ok := g.Type().Underlying().(*types.Pointer); ok {
+					if _, isSig := pt.Elem().Underlying().(*types.Signature); isSig {
+						immutableCells["cell:"+typeKey(pt.Elem())] = true
+					}
+				}
+			}
+		}
+	}
 	all := []*packages.Package{}
 	packages.Visit(pkgs, nil, func(p *packages.Package) { all = append(all, p) })
 	sort.Slice(all, func(i, j int) bool { return all[i].PkgPath < all[j].PkgPath })
@@ -337,6 +353,7 @@ type Job struct {
 	TypeInv      bool
 	NoUserInv    bool
 	NoContracts  bool
+	NoTimeouts   bool
 	GlobalStoreGuard func(a *Act, st *State, g *ssa.Global) Term
 	Prop         string
 	LockMode     bool
@@ -347,7 +364,7 @@ func (e *Engine) translate(job *Job) *Tr {
 	fn := job.Fn
 	tr := &Tr{eng: e, root: fn, comps: map[string]*Component{}, oblCount: map[string]int{}, panicMode: job.PanicMode, frameMode: job.Frame,
 		initHeap: map[string]*HeapV{}, usedStubs: map[string]bool{}, inlined: map[string]bool{}, havocked: map[string]bool{},
-		declared: map[string]bool{}, unfolded: map[string]bool{}, usedContracts: map[string]bool{}, usedAssumed: map[string]bool{}, atDone: map[string]bool{}, clauseFilter: job.ClauseFilter, isRoot: job.IsRoot, typeInvMode: job.TypeInv, lockMode: job.LockMode, prop: job.Prop, noUserInv: job.NoUserInv, noContracts: job.NoContracts, globalStoreGuard: job.GlobalStoreGuard}
+		declared: map[string]bool{}, unfolded: map[string]bool{}, usedContracts: map[string]bool{}, usedAssumed: map[string]bool{}, atDone: map[string]bool{}, specDefs: map[string]string{}, clauseFilter: job.ClauseFilter, isRoot: job.IsRoot, typeInvMode: job.TypeInv, lockMode: job.LockMode, prop: job.Prop, noUserInv: job.NoUserInv, noContracts: job.NoContracts, noTimeouts: job.NoTimeouts, globalStoreGuard: job.GlobalStoreGuard}
 	tr.inlineBudget = 200 - 2*len(fn.Blocks)
 	if tr.inlineBudget < 0 {
 		tr.inlineBudget = 0
